@@ -1216,6 +1216,9 @@ class ManifestRecursiveLoader:
             path, verify_manifests=verify_manifests)
         entry_dict = self.get_deduplicated_file_entry_dict_for_update(
             path, verify_manifests=verify_manifests)
+        # entries that the deduplication merged checksums into carry
+        # values nobody has verified, whatever the mtime of their file
+        dedup_altered = frozenset(self.updated_manifests)
         # all Manifests covering the path, from the top-level one down
         # to the most specific one (the entries for newly found
         # Manifests need to go into their parents)
@@ -1334,6 +1337,7 @@ class ManifestRecursiveLoader:
                     # entries adopted from a so far unreferenced
                     # Manifest were never verified, do not trust them
                     last_mtime=(last_mtime if mpath not in new_manifests
+                                and mpath not in dedup_altered
                                 else None))
                 if changed and mpath is not None:
                     self.updated_manifests.add(mpath)
